@@ -185,6 +185,22 @@ class RecipeGen {
 		add(s);
 	}
 
+	// Pattern seed: a value wider than one or two machine words combined with a word-structured constant (no-op detection, constant
+	// folding and the BigInt paths look at such operands word by word), observable through a slice
+	void patternWideMask() {
+		int v = pickVec();
+		size_t W = 65 + rng.below(rng.chance(1, 2) ? 64 : 140);
+		if (w(v) < W) { Step e{.kind = rng.chance(1, 2) ? "zext" : (rng.chance(1, 2) ? "sext" : "oext"), .width = W, .a = v}; v = add(e); } else W = w(v);
+		Step k{.kind = "const", .width = W, .str = constStr(W)}; int ki = add(k);
+		static const char *ops[] = {"and", "or", "xor", "and", "or", "add", "sub"};
+		Step s{.kind = ops[rng.below(7)], .width = W, .a = v, .b = ki}; if (rng.chance(1, 2)) std::swap(s.a, s.b);
+		int si = add(s);
+		// make it observable: a slice that straddles a word border, or the low / high word
+		size_t nw = 1 + rng.below(std::min<size_t>(W, 40)); size_t off = rng.chance(1, 2) ? (rng.chance(1, 2) ? 64 - std::min<size_t>(nw, 64) / 2 : 0) : rng.below(W - nw + 1);
+		if (off + nw > W) off = W - nw;
+		Step sl{.kind = "slice", .width = nw, .a = si}; sl.k = off; add(sl);
+	}
+
 	// Pattern seed: a conditionally assigned bit that is afterwards used (only) as a condition of IF / ELSE IF chains
 	// (removeIrrelevantMuxes must not confuse the selector input of a later mux with a masking data input)
 	void patternCondVar() {
@@ -216,7 +232,7 @@ public:
 		}
 		if (vecs.empty()) add(Step{.kind = "in", .width = genWidth()});
 		for (size_t n = 0; n < o.nSteps; n++) {
-			if (o.conds && rng.chance(o.patternBias, 100)) { unsigned pk = (unsigned) rng.below(4); if (pk < 2) patternCondFamily(); else if (pk == 2) patternCompareChain(); else patternCondVar(); continue; }
+			if (o.conds && rng.chance(o.patternBias, 100)) { unsigned pk = (unsigned) rng.below(5); if (pk < 2) patternCondFamily(); else if (pk == 2) patternCompareChain(); else if (pk == 3) patternCondVar(); else patternWideMask(); continue; }
 			unsigned c = (unsigned) rng.below(100);
 			if (c < 14) { // arithmetic / bitwise on equal widths
 				int a = pickVec(); int b = vecOfWidth(w(a));
